@@ -8,6 +8,7 @@ code -> spec : IndexFromFile under the gate scheduler on generated files; the in
 """
 import json, os
 import vlib
+from checks import cli_common
 
 TRACE_CFG = """SPECIFICATION TSpec
 CONSTANT TraceFile = "@TRACE@"
@@ -102,6 +103,8 @@ def run(rep, tier, seed):
             rep.case([[e.get("g"), e.get("ev"), e.get("start"), e.get("size")] for e in sc] + [head.get("L"), head.get("Mx")], nontriv)
         for sc in scs[:2]:
             rep.sample({"instance": {k: v for k, v in sc[0].items() if k not in ("bnd", "nulls")}, "bnd": sc[0]["bnd"][:20], "events": sc[1:30]})
+    # the command glue: the real binary end to end, judged by CliOutcome.tla
+    cli_common.run(rep, vlib.workdir("C02-cli"), seed, "make", tier == "thorough")
     rep.rule = ("case = generated file (random / zero / low-entropy / repetitive / zero runs at any alignment; sizes 0.., around multiples "
                 "of min, max and size/n) x (min,avg,max) with 48<=min<=avg<=max x n in 1..6 (1..16 thorough) x random or PCT schedule, "
                 "one schedule per instance with cancellation at a random event; distinct = different event sequence; non-trivial = "
@@ -112,6 +115,11 @@ def run(rep, tier, seed):
 
 
 def replay(path):
+    import json as _json
+    _d = _json.load(open(path))
+    _r = cli_common.replay_if_cli(_d, vlib.workdir("C02-cli-replay"))
+    if _r is not None:
+        return _r
     d = json.load(open(path))
     work = vlib.workdir("C02-replay")
     f = os.path.join(work, "trace.ndjson")
